@@ -392,6 +392,73 @@ harnesses! {
         forget(r); forget(t);
     }
 
+    // a failed call while a ramped ratio change is pending must not consume the ramp
+    #[kani::unwind(20)]
+    fn c13_ffi_failed_call_ramp_pending(nd) {
+        let mut r = FastFixedIn::<f64>::new(1.0, 2.0, PolynomialDegree::Linear, 3, 1).unwrap();
+        let mut t = FastFixedIn::<f64>::new(1.0, 2.0, PolynomialDegree::Linear, 3, 1).unwrap();
+        check!(r.set_resample_ratio(1.5, true).is_ok() && t.set_resample_ratio(1.5, true).is_ok(), "C12.abs_iff[base]");
+        let mut x = [0.0f64; 3];
+        crate::drive::fill_line(&mut x[..], 0);
+        let which = nd.bool();
+        let no = r.output_frames_next();
+        crate::fit!(nd, no <= 16 && no >= 1, "C13.demand_fits_scenario_bound[base]");
+        let mut z = [SENT; 16];
+        let e = if which {
+            r.process_into_buffer(&[&x[..2]], &mut [&mut z[..no]], None)            // input one frame short
+        } else {
+            r.process_into_buffer(&[&x[..]], &mut [&mut z[..no - 1]], None)          // output one frame short
+        };
+        check!(e.is_err(), "C13.err_expected[base]");
+        let mut clean = true;
+        unroll32!(i, 16, { if z[i].to_bits() != SENT.to_bits() { clean = false; } });
+        check!(clean, "C13.writes_nothing[base]");
+        check!(r.input_frames_next() == t.input_frames_next() && r.output_frames_next() == t.output_frames_next(),
+            "C13.getters_unchanged[base]");
+        let mut a = [SENT; 16];
+        let mut b = [SENT; 16];
+        let ra = r.process_into_buffer(&[&x[..]], &mut [&mut a[..]], None);
+        let rb = t.process_into_buffer(&[&x[..]], &mut [&mut b[..]], None);
+        check!(matches!((&ra, &rb), (Ok(p), Ok(q)) if p == q), "C13.state_unchanged_counts[base]");
+        let mut same = true;
+        unroll32!(i, 16, { if a[i].to_bits() != b[i].to_bits() { same = false; } });
+        check!(same, "C13.state_unchanged_output[base]");
+        check!(r.output_frames_next() == t.output_frames_next(), "C13.getters_unchanged[base]");
+        cover!(!which, "short output variant");
+        forget(r); forget(t);
+    }
+    #[kani::unwind(20)]
+    fn c13_sfo_failed_call_ramp_pending(nd) {
+        probe::reset_flags();
+        let mk = || SincFixedOut::<f64>::new_with_interpolator(1.0, 2.0, SincInterpolationType::Linear, probe::boxed64(2, 2), 3, 1).unwrap();
+        let (mut r, mut t) = (mk(), mk());
+        check!(r.set_resample_ratio(0.5, true).is_ok() && t.set_resample_ratio(0.5, true).is_ok(), "C12.abs_iff[base]");
+        let mut x = [0.0f64; 12];
+        crate::drive::fill_line(&mut x[..], 0);
+        let which = nd.bool();
+        let n = r.input_frames_next();
+        crate::fit!(nd, n <= 12 && n >= 1, "C13.demand_fits_scenario_bound[base]");
+        let mut z = [SENT; 3];
+        let e = if which {
+            r.process_into_buffer(&[&x[..n - 1]], &mut [&mut z[..]], None)
+        } else {
+            r.process_into_buffer(&[&x[..n]], &mut [&mut z[..2]], None)
+        };
+        check!(e.is_err(), "C13.err_expected[base]");
+        check!(z[0] == SENT && z[1] == SENT && z[2] == SENT, "C13.writes_nothing[base]");
+        check!(r.input_frames_next() == t.input_frames_next() && r.output_frames_next() == t.output_frames_next(),
+            "C13.getters_unchanged[base]");
+        let mut a = [SENT; 3];
+        let mut b = [SENT; 3];
+        let ra = r.process_into_buffer(&[&x[..n]], &mut [&mut a[..]], None);
+        let rb = t.process_into_buffer(&[&x[..n]], &mut [&mut b[..]], None);
+        check!(matches!((&ra, &rb), (Ok(p), Ok(q)) if p == q), "C13.state_unchanged_counts[base]");
+        check!(a[0].to_bits() == b[0].to_bits() && a[1].to_bits() == b[1].to_bits() && a[2].to_bits() == b[2].to_bits(),
+            "C13.state_unchanged_output[base]");
+        check!(r.input_frames_next() == t.input_frames_next(), "C13.getters_unchanged[base]");
+        forget(r); forget(t);
+    }
+
     // ---------------------------------------------------------------- process(): the allocating wrapper
     #[kani::unwind(5)]
     fn c13_process_mask(nd) {
